@@ -18,7 +18,7 @@ func coqFields(f map[string]string) string {
 }
 
 func coqRes(r Res) string {
-	return fmt.Sprintf("(mkRes %s %s %s)", hx.CoqStr(r.Kind), hx.CoqStr(r.Name), coqFields(r.Fields))
+	return fmt.Sprintf("(mkRes %s %s %s)", hx.CoqStr(r.ModelKind()), hx.CoqStr(r.Name), coqFields(r.Fields))
 }
 
 func coqResList(rs []Res) string {
